@@ -726,7 +726,7 @@ impl Property for C14 {
                 p -= 1u32;
             }
             let scale = -(le - k as i128 + 1) as i64;
-            return Trace { item: Item::Dec { value: Dec::new((r / 7) % 2 == 1, &p.to_str_radix(10), scale) }, env: EnvSel::All, transport: (r % 7) as u8 };
+            return Trace { item: Item::Dec { value: Dec::new((r / 7) % 2 == 1, &p.to_str_radix(10), scale) }, env: EnvSel::All, transport: (r % 11) as u8 };
         }
         let r = r - EDGE_GRID;
         if r < DEC_GRID {
@@ -750,7 +750,7 @@ impl Property for C14 {
             1..=4 => Item::F64 { bits: gen_f64_bits(rng) },
             _ => Item::Dec { value: gen_decimal(rng) },
         };
-        let transport = if matches!(item, Item::Dec { .. }) { rng.below(7) as u8 } else { 0 };
+        let transport = if matches!(item, Item::Dec { .. }) { rng.below(11) as u8 } else { 0 };
         Trace { item, env: EnvSel::All, transport }
     }
 
